@@ -26,6 +26,8 @@ fn main() {
         "C08" => checks::c08::run(&mut rep),
         "C09" => checks::c09::run(&mut rep),
         "C10" => checks::c10::run(&mut rep),
+        "C11" => checks::c11::run(&mut rep),
+        "C12" => checks::c12::run(&mut rep),
         "C14" => checks::c14::run(&mut rep),
         "C15" => checks::c15::run(&mut rep),
         _ => {
